@@ -15,7 +15,7 @@ ASSUMPTIONS = c01.ASSUMPTIONS
 def mutate_ast(rng, prog):
     p = copy.deepcopy(prog)
     body = p["body"]
-    kind = rng.choice(["del", "dup", "swap", "num", "name", "star", "sym", "domain", "strands", "len", "wild"])
+    kind = rng.choice(["del", "dup", "swap", "num", "name", "defname", "defname", "star", "sym", "domain", "strands", "len", "wild"])
     if not body: return p, "none"
     i = rng.randrange(len(body))
     st = body[i]
@@ -41,6 +41,13 @@ def mutate_ast(rng, prog):
         if refs: rng.choice(refs)[1] = rng.choice(["nosuch", "a", "x", st[1] if st[0] == "seq" else "y"])
         elif st[0] == "struct": st[3][rng.randrange(len(st[3]))] = rng.choice(["nosuch", st[2]])
         elif st[0] == "kin" and st[3]: st[3][0] = "nosuch"
+    elif kind == "defname":
+        # give this definition the name of another definition of the same namespace (a base sequence and a
+        # composite sequence share one): "every name refers to a unique earlier definition"
+        pos = {"seq": 1, "strand": 2, "struct": 2}
+        if st[0] in pos:
+            others = [o[pos[o[0]]] for k, o in enumerate(body) if k != i and o[0] == st[0]]
+            if others: st[pos[st[0]]] = rng.choice(others)
     elif kind == "star":
         its = items_of(st)
         refs = [it for it in (its or []) if it[0] != "nuc"]
